@@ -1,9 +1,21 @@
-from vf.driver import Harness, Prop
+import os
+import sys
+
+from vf.driver import Harness, Prop, VERIF
 from vf.props import reg, COMMON_ASSUMPTIONS
+
+
+def _gen_static(outdir):
+    sys.path.insert(0, os.path.join(VERIF, 'harness', 'gen'))
+    import c02_fixtures
+    return c02_fixtures.generate(outdir)
+
 
 reg(Prop(
     'C02',
-    [Harness('c02_peg', parts=16, slices=11, thorough_cfg='asan1')],
+    [Harness('c02_peg', parts=16, slices=11, thorough_cfg='asan1'),
+     # naturally typed grammars (compile-time result plumbing); -g1: line tables only, the TUs are template heavy
+     Harness('c02_static', parts=16, gen=_gen_static, extra_flags='-g1')],
     rule='A case is one seeded random well-formed grammar (1-2 mutually recursive rules, depth <= 4 quick / 5 thorough, built at run time '
          'from the real combinators: literal, char_set, complement, char_, string, epsilon, fail, int_<short/int/long>, uint, float_, sequence, '
          'alternative, repetition, repetition_plus, optional, not_, fatal, lexeme, separator, list, convert, convert_if, construct, ignore, '
